@@ -2,7 +2,7 @@
 import re
 
 import bv
-from interp import Agg, Enum, Int, Opaque, Ref, SymEnum, UNIT, bool_int, unwrap_ref
+from interp import Agg, Enum, Int, Opaque, Ref, SymArr, SymEnum, UNIT, bool_int, unwrap_ref
 
 OK, ERR = 0, 1          # Result variants
 NONE, SOME = 0, 1       # Option variants
@@ -295,6 +295,12 @@ def int_method(ip, st, fr, t, args):
     if name == "to_le_bytes":
         w = len(x)
         return Agg([Int(x[8 * i: 8 * i + 8]) for i in range(w // 8)])
+    if name == "rem_euclid":
+        # Euclidean remainder by a positive power of two = the low bits (two's complement), for signed and unsigned operands
+        m_ = bv.to_int(y)
+        if m_ is not None and m_ > 0 and (m_ & (m_ - 1)) == 0 and (not signed or m_ < (1 << (len(x) - 1))):
+            k_ = m_.bit_length() - 1
+            return Int(tuple(x[:k_]) + (0,) * (len(x) - k_))
     if name in ("saturating_sub",):
         s, br = bv.sub_c(x, y)
         if not signed:
@@ -419,7 +425,9 @@ def m_combinator(ip, st, fr, t, args):
 
 def is_combinator(path, full):
     if not (path.startswith("std::result::Result::<T, E>::") or path.startswith("std::option::Option::<T>::") or
-            path.startswith("core::result::Result::<T, E>::") or path.startswith("core::option::Option::<T>::")):
+            path.startswith("core::result::Result::<T, E>::") or path.startswith("core::option::Option::<T>::") or
+            path.startswith("std::option::Option::<&T>::") or path.startswith("std::option::Option::<&mut T>::") or
+            path.startswith("core::option::Option::<&T>::") or path.startswith("core::option::Option::<&mut T>::")):
         return False
     return path.split("::")[-1] in ("map", "map_err", "and_then", "or_else", "unwrap_or", "unwrap_or_else", "ok", "err", "ok_or", "ok_or_else", "or", "and", "map_or", "copied", "cloned")
 
@@ -484,6 +492,13 @@ def m_slice_get(ip, st, fr, t, args):
     if not isinstance(a, Ref) or not isinstance(args[1], Int):
         return None
     arr = ip.read_loc(st, a.root, a.path)
+    if isinstance(arr, SymArr):
+        # an abstract array (register file, stores): Some(&a[i]) exactly when i < len
+        from interp import SymIdx
+        i = args[1].bits
+        inb = bv.ult(i, bv.const(arr.n, len(i)))
+        nb = max(1, (arr.n - 1).bit_length())
+        return [(inb, Enum(SOME, [Ref(a.root, a.path + (SymIdx(tuple(i[:nb])),))])), (bv.M.NOT(inb), Enum(NONE, []))]
     if not isinstance(arr, Agg) or len(arr.fields) > 64:
         return None
     i = args[1].bits
@@ -493,6 +508,132 @@ def m_slice_get(ip, st, fr, t, args):
         outs.append((bv.eq(i, bv.const(k, len(i))), Enum(SOME, [Ref(a.root, a.path + (k,))])))
     outs.append((bv.ule(bv.const(n, len(i)), i), Enum(NONE, [])))
     return outs
+
+
+# ---------------------------------------------------------------- small concrete iterators (fixed-size loops are unrolled)
+def _it_next(ip, st, itv):
+    """advance an iterator value: returns (outcomes list of (cond, item or None), new iterator value per outcome) as
+    a list of (cond, item_or_None, new_value)"""
+    if isinstance(itv, Opaque) and itv.tag == "citer":
+        items, pos = itv.data
+        if pos < len(items):
+            return [(None, items[pos], Opaque("citer", (items, pos + 1)))]
+        return [(None, None, itv)]
+    if isinstance(itv, Agg) and itv.tag == "rangefrom" and len(itv.fields) == 1 and isinstance(itv.fields[0], Int):
+        a = itv.fields[0]
+        return [(None, a, Agg([Int(bv.add(a.bits, bv.const(1, len(a.bits))))], "rangefrom"))]
+    if isinstance(itv, Agg) and len(itv.fields) == 2 and all(isinstance(x, Int) for x in itv.fields) and itv.tag in (None, "range"):
+        a, b = itv.fields
+        c = bv.ult(a.bits, b.bits)
+        return [(c, a, Agg([Int(bv.add(a.bits, bv.const(1, len(a.bits)))), b], itv.tag)), (bv.M.NOT(c), None, itv)]
+    if isinstance(itv, Opaque) and itv.tag == "czip":
+        l, r = itv.data
+        out = []
+        for (c1, i1, n1) in _it_next(ip, st, l) or []:
+            if i1 is None:
+                out.append((c1, None, itv))
+                continue
+            for (c2, i2, n2) in _it_next(ip, st, r) or []:
+                c = c1 if c2 is None else (c2 if c1 is None else bv.M.AND(c1, c2))
+                out.append((c, None if i2 is None else Agg([i1, i2]), Opaque("czip", (n1, n2))))
+        return out
+    if isinstance(itv, Opaque) and itv.tag == "cenum":
+        inner, k = itv.data
+        out = []
+        for (c1, i1, n1) in _it_next(ip, st, inner) or []:
+            out.append((c1, None if i1 is None else Agg([Int(bv.const(k, 64)), i1]), Opaque("cenum", (n1, k + 1))))
+        return out
+    return None
+
+
+def m_citer_new(ip, st, fr, t, args):
+    """into_iter / iter on an array of known length"""
+    a = args[0]
+    path = t["callee"]["path"] or ""
+    if isinstance(a, Opaque) and a.tag in ("citer", "czip", "cenum"):
+        return a
+    if isinstance(a, Agg) and a.tag in ("rangefrom", "range"):
+        return a
+    try:
+        aty = ip.types[ip.operand_ty(t["args"][0])]
+    except Exception:
+        aty = {}
+    if isinstance(a, Agg) and a.tag is None and aty.get("k") == "adt" and all(isinstance(x, Int) for x in a.fields):
+        if (aty.get("path") or "").endswith("ops::RangeFrom") and len(a.fields) == 1:
+            return Agg(a.fields, "rangefrom")
+        if (aty.get("path") or "").endswith("ops::Range") and len(a.fields) == 2:
+            return Agg(a.fields, "range")
+    if isinstance(a, Agg) and unwrap_ref(a) is not None:
+        a = unwrap_ref(a)
+    if isinstance(a, Ref):
+        arr = ip.read_loc(st, a.root, a.path)
+        if isinstance(arr, Agg) and arr.tag is None and len(arr.fields) <= 16 and _is_array_ty(ip, t["args"][0], True):
+            return Opaque("citer", (tuple(Ref(a.root, a.path + (k,)) for k in range(len(arr.fields))), 0))
+        return None
+    if isinstance(a, Agg) and a.tag is None and len(a.fields) <= 16 and _is_array_ty(ip, t["args"][0], False):
+        return Opaque("citer", (tuple(a.fields), 0))
+    return None
+
+
+def _is_array_ty(ip, operand, by_ref):
+    try:
+        ty = ip.types[ip.operand_ty(operand)]
+        while by_ref and ty["k"] in ("ref", "ptr"):
+            ty = ip.types[ty["to"]]
+        return ty["k"] in ("array", "slice")
+    except Exception:
+        return False
+
+
+def m_citer_next(ip, st, fr, t, args):
+    r = args[0]
+    if not isinstance(r, Ref):
+        return None
+    itv = ip.read_loc(st, r.root, r.path)
+    res_ = _it_next(ip, st, itv)
+    if res_ is None:
+        return None
+    outs = []
+    for (c, item, newv) in res_:
+        def upd(s, r=r, newv=newv):
+            ip.write_loc(s, r.root, r.path, newv)
+        outs.append((c, Enum(SOME, [item]) if item is not None else Enum(NONE, []), upd))
+    return outs
+
+
+def m_zip(ip, st, fr, t, args):
+    l = m_citer_new(ip, st, fr, {"callee": t["callee"], "args": [t["args"][0]]}, [args[0]])
+    r = m_citer_new(ip, st, fr, {"callee": t["callee"], "args": [t["args"][1]]}, [args[1]])
+    if l is None or r is None:
+        return None
+    return Opaque("czip", (l, r))
+
+
+def m_enumerate(ip, st, fr, t, args):
+    l = m_citer_new(ip, st, fr, {"callee": t["callee"], "args": [t["args"][0]]}, [args[0]])
+    if l is None:
+        return None
+    return Opaque("cenum", (l, 0))
+
+
+_TRYFROM = re.compile(r"TryFrom<([iu])(8|16|32|64|128|size)> for ([iu])(8|16|32|64|128|size)>::try_from$")
+
+
+def m_try_from_int(ip, st, fr, t, args):
+    m = _TRYFROM.search(t["callee"]["path"] or "") or _TRYFROM.search(t["callee"].get("full") or "")
+    a = args[0]
+    if not m or not isinstance(a, Int):
+        return None
+    s1 = m.group(1) == "i"
+    s2 = m.group(3) == "i"
+    w1 = len(a.bits)
+    w2 = 64 if m.group(4) == "size" else int(m.group(4))
+    conv = bv.cast(a.bits, w2, s1)
+    back = bv.cast(conv, w1, s2)
+    fits = bv.eq(back, a.bits)
+    if s1 != s2:
+        fits = bv.M.AND(fits, bv.M.NOT(conv[-1] if not s1 else a.bits[-1]))
+    return [(fits, Enum(OK, [Int(conv)])), (bv.M.NOT(fits), Enum(ERR, [Opaque("TryFromIntError")]))]
 
 
 def is_range_index(path, full):
@@ -540,7 +681,13 @@ def standard_models():
         (is_int_convert, m_int_convert),
         (is_range_index, m_range_index),
         (is_combinator, m_combinator),
-        (lambda p, f: p in ("core::slice::<impl [T]>::get", "std::slice::<impl [T]>::get") and "::get::<usize>" in (f or ""), m_slice_get),
+        (lambda p, f: bool(_TRYFROM.search(p or "")), m_try_from_int),
+        (lambda p, f: (p or "").startswith("anyhow::error::<impl anyhow::Error>::context"), m_identity0),
+        (lambda p, f: p.endswith("::into_iter") or p in ("core::slice::<impl [T]>::iter", "core::array::<impl [T; N]>::iter"), m_citer_new),
+        (lambda p, f: p.endswith("Iterator>::next") and any(x in (f or "") for x in ("array::IntoIter<", "slice::Iter<", "ops::RangeFrom<", "ops::Range<", "iter::Zip<", "iter::Enumerate<")), m_citer_next),
+        (lambda p, f: p == "std::iter::Iterator::zip", m_zip),
+        (lambda p, f: p == "std::iter::Iterator::enumerate", m_enumerate),
+        (lambda p, f: p in ("core::slice::<impl [T]>::get", "std::slice::<impl [T]>::get", "core::slice::<impl [T]>::get_mut", "std::slice::<impl [T]>::get_mut") and "::<usize>" in (f or ""), m_slice_get),
         (lambda p, f: p in ("std::cmp::PartialEq::ne", "core::cmp::PartialEq::ne"), m_partial_ne),
         (lambda p, f: p in ("std::ops::RangeInclusive::<Idx>::new", "core::ops::RangeInclusive::<Idx>::new"), m_rangeincl_new),
         (lambda p, f: p in ("std::ops::RangeInclusive::<Idx>::contains", "core::ops::RangeInclusive::<Idx>::contains", "std::ops::Range::<Idx>::contains", "core::ops::Range::<Idx>::contains"), m_range_contains),
